@@ -5,3 +5,4 @@
 -/
 import Pyab.Properties.C13
 import Pyab.Properties.C14_text
+import Pyab.Properties.C13_reader
